@@ -324,6 +324,7 @@ func Run(c *engine.Ctx) {
 	}
 	graphShapes(c)
 	histories(c)
+	fileHistories(c)
 }
 
 // graphShapes: totality over containment shapes the construction-step search cannot reach at its depth:
@@ -638,6 +639,67 @@ func histories(c *engine.Ctx) {
 		}
 	}
 	rec(nil)
+}
+
+// fileHistories: serializations through the writer's file entry point onto ONE path, one after the other (longer
+// outputs before shorter ones and the reverse, one format after another). What the path holds after the last call is
+// what the same call writes to a stream from the initial state - nothing of an earlier output survives.
+func fileHistories(c *engine.Ctx) {
+	c.Group("file-histories")
+	docs := histDocs()
+	var names []string
+	for n := range docs {
+		names = append(names, n)
+	}
+	sortStrings(names)
+	var calls []hcall
+	for _, n := range names {
+		for _, f := range histFormats {
+			calls = append(calls, hcall{n, f})
+		}
+	}
+	c.Bound("file-histories", fmt.Sprintf("all sequences of 2 WriteFile calls over %d calls (%d documents x %d formats) on one path; the file after the last call = the stream output of that call from the initial state", len(calls), len(names), len(histFormats)))
+	for i := range calls {
+		for j := range calls {
+			i, j := i, j
+			c.Case(func() any { return []hcall{calls[i], calls[j]} }, func(t *engine.T) *engine.Violation {
+				dir, err := os.MkdirTemp(os.Getenv("MCVERIF_SCRATCH"), "c07f-")
+				if err != nil {
+					return engine.Violate("harness", "", "%v", err)
+				}
+				defer os.RemoveAll(dir)
+				path := dir + "/out.json"
+				var lastErr error
+				for _, k := range []hcall{calls[i], calls[j]} {
+					lastErr = rw.WriteFile(proto.Clone(histDocs()[k.Doc]).(*sbom.Document), k.F, 2, path)
+					t.Transitions(1)
+				}
+				k := calls[j]
+				want := callOutput(k)
+				t.Validated(1)
+				got := "error: "
+				if lastErr == nil {
+					b, rerr := os.ReadFile(path)
+					if rerr != nil {
+						return engine.Violate("neither", fam(k.F), "WriteFile reported success but the file cannot be read: %v", rerr)
+					}
+					n, nerr := rw.NormalizeJSON(b)
+					if nerr != nil {
+						return engine.Violate("history-dependent", fam(k.F), "after WriteFile of %s as %s and then of %s as %s onto the same path the file is not a JSON document (%v): %.300q", calls[i].Doc, calls[i].F, k.Doc, k.F, nerr, b)
+					}
+					got = n
+				} else if strings.HasPrefix(want, "error: ") {
+					got = want // both fail: the messages may name the path
+				}
+				if got != want {
+					return engine.Violate("history-dependent", fam(k.F), "WriteFile of %s as %s after %s as %s onto the same path leaves a file that differs from the stream output of the same call:\nfile:   %.400s\nstream: %.400s", k.Doc, k.F, calls[i].Doc, calls[i].F, got, want)
+				}
+				t.State(fmt.Sprint("fh", i, j))
+				t.Outcome("file-history-ok:" + fam(k.F))
+				return nil
+			})
+		}
+	}
 }
 
 func sortStrings(s []string) {
